@@ -139,10 +139,27 @@ func waitDone(p *harness.Proc, id string, aggs []model.AggSpec) (*harness.PResp,
 	}
 }
 
+// absScale: the sum of the absolute values of every numeric token of the corpus - an upper
+// bound of what the rounding error of any sum over its documents is relative to
+func absScale(corpus model.Corpus) float64 {
+	s := 0.0
+	for _, d := range corpus {
+		for _, t := range d.Toks {
+			if v, ok := model.IsNum(t.V); ok {
+				s += math.Abs(v)
+			}
+		}
+	}
+	if math.IsInf(s, 0) {
+		return 0
+	}
+	return s
+}
+
 // aggDiff compares two aggregation results of the same request: same buckets (order is not
 // significant), equal counters, values equal up to the rounding of a different summation
 // order (relative 1e-9, as harness.CompareAgg allows against the model).
-func aggDiff(a, b harness.AggOut) string {
+func aggDiff(a, b harness.AggOut, scale float64) string {
 	if a.NotExists != b.NotExists {
 		return fmt.Sprintf("not_exists %d vs %d", a.NotExists, b.NotExists)
 	}
@@ -159,7 +176,7 @@ func aggDiff(a, b harness.AggOut) string {
 		if e1 != nil || e2 != nil {
 			return false
 		}
-		return math.Abs(f-g) <= 1e-9*math.Max(math.Abs(f), math.Abs(g))
+		return math.Abs(f-g) <= 1e-9*math.Max(math.Max(math.Abs(f), math.Abs(g)), scale)
 	}
 	bm := map[string]harness.AggBucket{}
 	for _, x := range b.Buckets {
@@ -202,7 +219,7 @@ func compare(what string, r *harness.PResp, corpus model.Corpus, c *Case, dups b
 			return evid.Failf("aggs-missing", "[%s] %d aggregation results, the synchronous search gave %d", what, len(r.Aggs), len(aggRef.Aggs))
 		}
 		for i := range r.Aggs {
-			if d := aggDiff(r.Aggs[i], aggRef.Aggs[i]); d != "" {
+			if d := aggDiff(r.Aggs[i], aggRef.Aggs[i], absScale(corpus)); d != "" {
 				return evid.Failf("agg-differs-from-sync", "[%s] agg %+v differs from what the synchronous search gave: %s", what, c.Aggs[i], d)
 			}
 		}
